@@ -101,6 +101,13 @@ class ClassTable:
         names = sorted(full)
         if len(names) > 1:
             ax.append(z3.Distinct(*[self.consts[n] for n in names]))
+        # builtin classes with incompatible instance layouts have no common subclass
+        solid = [n for n in ("int", "str", "bytes", "float", "tuple", "list", "dict", "set", "frozenset", "NoneType", "slice", "complex", "function", "type", "BaseException") if n in names]
+        for i, x in enumerate(solid):
+            for y in solid[i + 1:]:
+                if x in self.ancestors(y) or y in self.ancestors(x):
+                    continue
+                ax.append(z3.ForAll([a], z3.Not(z3.And(sub(a, self.consts[x]), sub(a, self.consts[y]))), patterns=[sub(a, self.consts[x]), sub(a, self.consts[y])]))
         for n in names:
             if n in self.final:
                 ax.append(z3.ForAll([a], z3.Implies(sub(a, self.consts[n]), a == self.consts[n]), patterns=[sub(a, self.consts[n])]))
